@@ -39,8 +39,11 @@ class Printer(object):
     ARC_STEP = 0.05       # mm between physical path samples of an arc
     ARC_MAX_PTS = 40000
 
-    def __init__(self, g90e=False):
+    def __init__(self, g90e=False, plugin_g92=False):
         self.g90e = g90e
+        # plugin_g92: G92 X/Y/Z re-bases the frame the way the filter's AxisPosition.setLogicalOffsetPosition does on the unchanged
+        # tree (recorded finding K2), so that this object predicts the filter's *tracked* frame exactly and anything beyond K2 shows
+        self.plugin_g92 = plugin_g92
         self.pos = [0.0, 0.0, 0.0]      # physical mm
         self.shift = [0.0, 0.0, 0.0]    # G92 workspace shift (mm)
         self.e = 0.0                    # logical extruder coordinate, mm
@@ -139,7 +142,11 @@ class Printer(object):
                     continue
                 if l in "XYZ":
                     ax = "XYZ".index(l)
-                    self.shift[ax] = self.pos[ax] - v * self.unit
+                    if self.plugin_g92:
+                        native = (v * self.unit + self.shift[ax]) if self.abs_xyz else (self.pos[ax] + v * self.unit)
+                        self.shift[ax] += native - self.pos[ax]
+                    else:
+                        self.shift[ax] = self.pos[ax] - v * self.unit
                 elif l == "E":
                     self.e = v * self.unit
         # every other code: no motion
